@@ -68,7 +68,8 @@ def model_text(model, limit=6000):
 
 def verify_one(args):
     """Worker: verify one contract (by registry position). Returns a plain dict."""
-    repo_root, target, index, use_cache, rlimit, timeout = args
+    repo_root, target, index, use_cache, rlimit, timeout = args[:6]
+    ghost_unused = len(args) > 6 and args[6]
     t0 = time.time()
     out = {"target": target, "index": index, "obligations": [], "error": None, "unsupported": None}
     try:
@@ -91,6 +92,7 @@ def verify_one(args):
         if fi is not None:
             out["function"] = {"path": fi.path, "qualname": fi.qualname, "lines": [fi.lineno, fi.end_lineno], "sha256": fi.sha256}
         eng = Engine(repo, spec_funcs=theory.SPEC_FUNCS, externals=theory.EXTERNALS, spec_consts=theory.SPEC_CONSTS)
+        eng.ghost_asserts_unused = ghost_unused
         try:
             info = eng.verify(c)
         except Unsupported as e:
@@ -152,6 +154,11 @@ def verify_one(args):
 
         with ThreadPoolExecutor(max_workers=int(os.environ.get("VERIF_SOLVER_THREADS", "4"))) as tp:
             out["obligations"] = list(tp.map(solve, list(zip(eng.obligations, texts))))
+        if not ghost_unused and any(o["kind"] == "ghost-assert" and o["status"] == "refuted" for o in out["obligations"]):
+            # a ghost assertion (a proof hint that is proved and then used as a fact) failed: what was proved after it rests on an unproved fact.
+            # Second pass: the same contract with ghost assertions NOT used as facts; its verdicts on the non-hint obligations are what counts.
+            second = verify_one((repo_root, target, index, False, rlimit, timeout, True))
+            out["second_pass"] = second.get("obligations", [])
         if out.get("vacuity_error") and all(o["status"] == "proved" for o in out["obligations"]):
             # contradictory paths AND nothing failed: the proofs are worthless. (With a failed obligation - e.g. an invariant that does not
             # hold initially on a changed tree - the contradiction is a consequence of that failure, which is what gets reported.)
